@@ -76,6 +76,12 @@ def check_named(ctx: core.Ctx, mod: ast.Module, fname: str, kind: str):
     cls = core.need(_named_class(fn), f"common.{fname}: nested class")
     init = core.need(core.find_func(cls, "__init__"), f"common.{fname}.__init__")
     ctx.functions.append(f"common.{fname}.<class>.__init__")
+    # compare what __init__ does, not how it is arranged: helpers inlined, guard clauses / swapped arms / temporaries normalised
+    from .. import normast
+    nz = normast.Normaliser(normast.class_resolver(mod, cls))
+    init = nz.function(init)
+    for h in nz.inlined:
+        ctx.functions.append(f"common.{h} (inlined into {fname}.__init__)")
     params = [a.arg for a in fn.args.args]
     if len(params) < 2:
         raise core.AnalysisError(f"common.{fname} does not take (name, arglist)")
@@ -200,12 +206,15 @@ def check_base(ctx: core.Ctx, mod: ast.Module):
     where = f"{COMMON}:_NamedArrayBase"
     fd = core.need(core.find_func(base, "from_data"), "common._NamedArrayBase.from_data")
     ok = False
+    from .. import normast
+    fd = normast.Normaliser(normast.class_resolver(mod, base)).function(fd)
+    # canonical form: if data.shape == cls.shape: return cls(_data=data) else: raise
     for i, s in enumerate(fd.body):
-        if isinstance(s, ast.If) and isinstance(s.test, ast.Compare) and isinstance(s.test.ops[0], ast.NotEq) \
+        if isinstance(s, ast.If) and isinstance(s.test, ast.Compare) and isinstance(s.test.ops[0], ast.Eq) \
                 and {ast.unparse(s.test.left), ast.unparse(s.test.comparators[0])} == {"data.shape", "cls.shape"} \
-                and any(isinstance(b, ast.Raise) for b in s.body):
-            rest = fd.body[i + 1:]
-            ok = any(isinstance(r, ast.Return) and ast.unparse(r.value).replace(" ", "") == "cls(_data=data)" for r in rest)
+                and s.orelse and isinstance(s.orelse[0], ast.Raise) and all(isinstance(p_, (ast.Assert, ast.Expr)) for p_ in fd.body[:i]):
+            ok = len(s.body) == 1 and isinstance(s.body[0], ast.Return) and s.body[0].value is not None \
+                and ast.unparse(s.body[0].value).replace(" ", "") == "cls(_data=data)"
     ctx.oblige("NV-FROMDATA", where, "from_data: shape != cls.shape -> raise; return cls(_data=data)", ok, file=COMMON, func="_NamedArrayBase.from_data",
                construct="from_data", msg="from_data does not refuse a wrongly shaped array before constructing")
     fdict = core.need(core.find_func(base, "from_dict"), "common._NamedArrayBase.from_dict")
